@@ -21,6 +21,12 @@ void World::fire_armed_ok() {
 
 void RecTracer::trace(char const* file, unsigned long line, std::string const& call) {
   w->traces.push_back({idx, file ? file : "", line, call});
+  if (reenter && !w->in_reentry && w->m[0]) {
+    // a tracer that uses a mock itself (e.g. forwards what it sees to a mocked sink): obj0.g(1), traced like any other call
+    w->in_reentry = true; ++w->depth; int outer_fn = w->callfn; w->callfn = G1;
+    try { w->call_fn(0, G1, 1, 0); } catch (...) {}
+    w->callfn = outer_fn; --w->depth; w->in_reentry = false;
+  }
 }
 
 static trompeloeil::reporter_func make_reporter(int gen);
@@ -219,6 +225,7 @@ Outcome World::apply(const Op& op) {
         callobj = op.obj; callfn = op.fn; calla1 = op.a1; calla2 = op.a2;
         try {
           if (op.k1 == 1) { try { throw 42; } catch (int) { o.retv = call_fn(op.obj, op.fn, op.a1, op.a2); } }  // the call is made while an exception is being handled
+          else if (op.k1 == 2) during_unwinding([&] { o.retv = call_fn(op.obj, op.fn, op.a1, op.a2); });      // ... from a destructor while the stack is being unwound (plans use it for calls that return)
           else o.retv = call_fn(op.obj, op.fn, op.a1, op.a2);
           o.kind = OK_ACCEPT;
           if (o.retv.compare(0, 2, "r:") == 0) o.handler = atoi(o.retv.c_str() + 2) - 100;
@@ -270,7 +277,7 @@ Outcome World::apply(const Op& op) {
       case OP_ASSIGN_WATCHED: *w[op.obj] = static_cast<const WObj&>(*w[op.k1]); break;
       case OP_MOVEASSIGN_WATCHED: *w[op.obj] = std::move(*w[op.k1]); break;
       case OP_PUSH_TRACER:
-        if (op.k1 == 0) rec[ntracer].reset(new RecTracer(this, ntracer)); else box[ntracer].reset(new StreamTracerBox(this, ntracer));
+        if (op.k1 == 0 || op.k1 == 2) rec[ntracer].reset(new RecTracer(this, ntracer, op.k1 == 2)); else box[ntracer].reset(new StreamTracerBox(this, ntracer));
         ++ntracer; break;
       case OP_POP_TRACER: --ntracer; rec[ntracer].reset(); box[ntracer].reset(); break;
       case OP_SET_REPORTER: install_reporter(op.k1, op.k2 != 0, &o.misc); break;
